@@ -12,8 +12,8 @@ import (
 
 // QueryAlphabet collides on purpose with LineAlphabet: case pairs, accent
 // pairs, word-boundary characters, operator characters (interior only).
-var QueryAlphabet = []rune("abcABéÉeñ_-/.1 '^$!|")
-var LineAlphabet = []rune("abcABCéÉeEñÑn_-/.,1 2\t'^$!|")
+var QueryAlphabet = []rune("abcABéÉeñ_-/.1 '^$!|\\")
+var LineAlphabet = []rune("abcABCéÉeEñÑn_-/.,1 2\t'^$!|\\")
 
 // Body draws a term body that can be written unambiguously.
 func Body(t *rapid.T, maxLen int) string {
@@ -25,7 +25,7 @@ func Body(t *rapid.T, maxLen int) string {
 	if strings.ContainsRune("'^!", rs[0]) {
 		rs[0] = 'a'
 	}
-	if strings.ContainsRune("$'", rs[n-1]) {
+	if strings.ContainsRune("$'\\", rs[n-1]) {
 		rs[n-1] = 'b'
 	}
 	s := string(rs)
@@ -189,10 +189,27 @@ func QueryText(t *rapid.T, q oracle.Query, o MatchOpts) string {
 			pads[i] = 0
 		}
 	}
-	return oracle.Render(q, o.Exact, func(i int) int {
+	text := oracle.Render(q, o.Exact, func(i int) int {
 		if i+1 < len(pads) && i+1 >= 0 {
 			return pads[i+1]
 		}
 		return 0
 	})
+	// the end of the query: blanks after the last term are no part of it (an escaped one is), and a
+	// backslash that nothing follows stands for itself. The latter is written into q: the last term
+	// of the caller's query gets the backslash.
+	switch rapid.IntRange(0, 7).Draw(t, "queryEnd") {
+	case 0, 1:
+		text += strings.Repeat(" ", rapid.IntRange(1, 3).Draw(t, "trailingBlanks"))
+	case 2:
+		if len(q) > 0 {
+			g := q[len(q)-1]
+			last := &g[len(g)-1]
+			if last.Kind == oracle.KindFuzzy || last.Kind == oracle.KindExact || last.Kind == oracle.KindPrefix {
+				last.Body += "\\"
+				text += "\\"
+			}
+		}
+	}
+	return text
 }
